@@ -190,6 +190,25 @@ def r18_6(rep, M, rid):
         rep.ok(rid, "get_connected_directions: direction d is connected iff some unit has incoming edges with multiplier +e_d and -e_d")
     else:
         raise AnalysisError("get_connected_directions: conjunction of the +d and -d findings not recognised")
+    # the two findings are booleans that start False for every direction and are raised by exactly their own test
+    def flag_of(cmp_call):
+        t = next((t for t in ast.walk(fn) if isinstance(t, ast.If) and any(x is cmp_call for x in ast.walk(t.test))), None)
+        if t is None or len(t.body) != 1 or not (isinstance(t.body[0], ast.Assign) and isinstance(t.body[0].targets[0], ast.Name) and isinstance(t.body[0].value, ast.Constant)):
+            return None, None
+        return t.body[0].targets[0].id, t.body[0].value.value
+    fp, vp = flag_of(pos[0])
+    fn_, vn = flag_of(neg[0])
+    if fp is None or fn_ is None:
+        raise AnalysisError("get_connected_directions: the flags raised by the +d / -d tests were not recognised")
+    inits = {f: [s2.value.value for s2 in ast.walk(fn) if isinstance(s2, ast.Assign) and isinstance(s2.targets[0], ast.Name) and s2.targets[0].id == f
+                 and isinstance(s2.value, ast.Constant) and not any(s2 is b for t in ast.walk(fn) if isinstance(t, ast.If) for b in t.body)] for f in (fp, fn_)}
+    conj = {x.id for t in both for x in t.test.values if isinstance(x, ast.Name)} if both else set()
+    if vp is True and vn is True and inits[fp] == [False] and inits[fn_] == [False] and fp != fn_ and (not both or conj == {fp, fn_}):
+        rep.ok(rid, f"get_connected_directions: `{fp}` / `{fn_}` start False for every direction and are raised by the +d / -d test respectively")
+    else:
+        rep.violation(rid, "get_connected_directions: flags of the +d / -d findings", f"`{fp}` is set to {vp} by the +d test (initial {inits[fp]}), `{fn_}` to {vn} by the -d test "
+                      f"(initial {inits[fn_]}), conjunction over {sorted(conj)}: required False initially, True when found, both in the conjunction - otherwise every direction "
+                      "(or none) counts as closed and slabs / flakes are classified wrongly", M.where(fq))
     # the graph must keep parallel edges: +e_d and -e_d often arrive from the *same* neighbouring unit (cells that repeat once or twice)
     gattr = {norm(s2.value) for s2 in ast.walk(fn) if isinstance(s2, ast.Assign) and isinstance(s2.value, ast.Attribute) and isinstance(s2.value.value, ast.Name)
              and s2.value.value.id == "self"} | {norm(c.func.value) for c in ast.walk(fn) if isinstance(c, ast.Call) and isinstance(c.func, ast.Attribute)
@@ -260,6 +279,7 @@ def run(rep, ctx):
         c17.r17_6(rep, M, "R18.7")
         c17.r17_5(rep, M, "R18.7")
         option_defaults_agree(rep, M, "R18.7")
+        c17.defaults_pass_validation(rep, M, "R18.7")
     rep.rule("R18.9", "the search for the atoms inside a candidate cell covers every periodic image the cell reaches into (shared with C04)")
     with rep.guard("R18.9"):
         from . import c04 as _c04w
